@@ -491,3 +491,57 @@ def print_value(e, t, tmp):      # noqa: F811  (extends the earlier definition w
     if isinstance(t, dict) and t.get("pair"):
         return _pv(e["a"], e["ta"], tmp + "p") + [pr(lit(T(" / ")))] + _pv(e["b"], e["tb"], tmp + "q")
     return _pv(e, t, tmp)
+
+
+# ------------------------------------------------------------------------------------------ C06: index / slice / cast domains
+FUNCS_C06 = FUNCS + [
+    fn("plus_eins", [("z", TZ, True)], TNONE, [setv(lvid("z"), bin_("plus", ident("z"), zl(1)))]),
+]
+
+
+def domain_cases(tier, rng):
+    cases = []
+
+    def add(key, setup, e, t):
+        cases.append(Case(key, e, t, setup))
+    maxlen = 3 if tier == "quick" else 4
+    extremes = [MAXI, MINI] if tier == "quick" else [1 << 31, -(1 << 31), MAXI, MAXI - 1, MINI, MINI + 1, 1 << 32, (1 << 32) + 1]
+    containers = []
+    for n in range(0, maxlen + 1):
+        containers.append(("LZ%d" % n, TL(TZ), TZ, lit(L(TZ, [Z(10 + i) for i in range(n)])), zl(99)))
+        containers.append(("LT%d" % n, TL(TT), TT, lit(L(TT, [T("e%dö" % i) for i in range(n)])), lit(T("neu"))))
+        containers.append(("T%d" % n, TT, TC, lit(T("aö€😀"[:n])), lit(C("Z"))))
+        if tier != "quick" or n in (0, 2):
+            containers.append(("LP%d" % n, TL(TS("Paar")), TS("Paar"), {"k": "list", "et": TS("Paar"), "vals": [new("Paar", zahl=zl(i), wort=lit(T("p"))) for i in range(n)]} if n else lit(L(TS("Paar"), [])),
+                               new("Paar", zahl=zl(5), wort=lit(T("q")))))
+    for cn, ct, et, clit, newel in containers:
+        n = int(cn[-1])
+        idxs = list(range(-2, n + 3)) + extremes
+        for i in idxs:
+            su = [var("c", ct, clit, False)]
+            add("idx:rv-var:%s:%d" % (cn, i), su, bin_("idx", ident("c"), zl(i)), et)
+            add("idx:rv-tmp:%s:%d" % (cn, i), [], bin_("idx", clit, zl(i)), et)
+            add("idx:assign:%s:%d" % (cn, i), su + [setv(idx_lv(lvid("c"), zl(i)), newel)], ident("c"), ct)
+            if 0 <= i <= 255:
+                add("idx:byte:%s:%d" % (cn, i), su, bin_("idx", ident("c"), lit(B(i))), et)
+            if cn.startswith("LZ"):
+                add("idx:refarg:%s:%d" % (cn, i), su + [{"k": "expr", "e": call("plus_eins", [("z", idx_lv(lvid("c"), zl(i)))])}], ident("c"), ct)
+            if cn.startswith("LT"):
+                add("idx:refarg:%s:%d" % (cn, i), su + [{"k": "expr", "e": call("haenge_an", [("t", idx_lv(lvid("c"), zl(i))), ("s", lit(T("!")))])}], ident("c"), ct)
+                for j in (0, 1, 3, 4):
+                    add("idx:nested:%s:%d:%d" % (cn, i, j), su, bin_("idx", bin_("idx", ident("c"), zl(i)), zl(j)), TC)
+                    add("idx:nested-assign:%s:%d:%d" % (cn, i, j), su + [setv(idx_lv(idx_lv(lvid("c"), zl(i)), zl(j)), lit(C("#")))], ident("c"), ct)
+            add("slice:from:%s:%d" % (cn, i), su, bin_("sfrom", ident("c"), zl(i)), ct)
+            add("slice:to:%s:%d" % (cn, i), su, bin_("sto", ident("c"), zl(i)), ct)
+        sl = list(range(-1, n + 3)) + extremes[:2]
+        for a, b in itertools.product(sl, sl):
+            add("slice:range:%s:%d:%d" % (cn, a, b), [var("c", ct, clit, False)], ter("slice", ident("c"), zl(a), zl(b)), ct)
+    # Variable -> type conversions: only the held type succeeds
+    held = [("Z", TZ, zl(5)), ("K", TK, lit(K(3, 1))), ("B", TBY, lit(B(7))), ("W", TW, lit(W(True))), ("C", TC, lit(C("c"))), ("T", TT, lit(T("t"))),
+            ("LZ", TL(TZ), lit(L(TZ, [Z(1)]))), ("LT", TL(TT), lit(L(TT, [T("x")]))), ("P", TS("Paar"), new("Paar", zahl=zl(1), wort=lit(T("w"))))]
+    for hn, ht, he in held:
+        for tn, tt, _ in held:
+            add("varcast:%s:%s" % (hn, tn), [var("v", TV, cast(TV, he), False)], cast(tt, ident("v")), tt)
+    cases.append(Case("todo", lit(Z(1)), TZ, [{"k": "todo"}]))
+    cases.append(Case("todo:in-function-not-called", lit(Z(1)), TZ, []))
+    return cases
